@@ -149,17 +149,62 @@ def has_huge_int_literal(text):
     return False
 
 
+def without_simplify_counterfactual(ode, recheck):
+    """Regenerate the numpy module with sympy.simplify (as called from _print_Piecewise) replaced by the
+    identity - in this harness process only - and re-run the case's comparison."""
+    import sympy
+
+    from ..exec.pyexec import PyModule
+    from . import common as C
+
+    orig = sympy.simplify
+    try:
+        sympy.simplify = lambda e, *a, **k: e
+        oc = C.py_code(ode)
+    finally:
+        sympy.simplify = orig
+    if not oc.ok:
+        return False
+    return recheck(PyModule(oc.value))
+
+
+def inverse_trig_of_constant(ref, name):
+    import ast
+
+    for n in closure_names(ref, name):
+        for k in ast.walk(ref._parsed[n]):
+            if isinstance(k, ast.Call) and getattr(k.func, "id", "") in ("asin", "acos", "atan") and k.args:
+                inner = k.args[0]
+                if isinstance(inner, ast.Call) and getattr(inner.func, "id", "") in ("sin", "cos", "tan"):
+                    fnodes = {id(c.func) for c in ast.walk(inner) if isinstance(c, ast.Call)}
+                    if not any(isinstance(q, ast.Name) and id(q) not in fnodes and q.id != "pi" for q in ast.walk(inner)):
+                        return True
+    return False
+
+
 @matcher("C01")
 def c01_matchers(v, text="", features=None, ode=None, ref=None, code=None, recheck=None, **kw):
     d = v.get("detail", {})
     exc = d.get("exc", "") or ""
     kind = v.get("kind")
-    names = [d["name"]] if d.get("name") else (list(ref.derivs.values()) if ref else [])
+    names = [d["name"]] if d.get("name") else (list(ref.assigns) if ref else [])
     if kind in ("value", "rhs_raises") and ode is not None and ref is not None:
         if (kind == "value" or "name 'inf'" in exc or "name 'nan'" in exc) and folded_constant_out_of_range(ode, ref, names):
             return "C01-folded-constant-out-of-float-range"
-    if kind == "rhs_raises" and ("loop of ufunc does not support argument 0 of type int" in exc or "Python int too large to convert to C long" in exc) and has_huge_int_literal(text):
+    if kind == "rhs_raises" and ("loop of ufunc does not support argument 0 of type int" in exc or "Python int too large to convert to C long" in exc) and (has_huge_int_literal(text) or has_huge_int_literal(code or "") or (ode is not None and ref is not None and huge_integer_atom(ode, ref, list(ref.assigns)))):
         return "C01-huge-int-literal-in-numpy-call"
+    root = (d.get("root_cause") or {}).get("name") or d.get("name")
+    if kind == "value" and ref is not None and root in ref.assigns and ode is not None:
+        import sympy
+
+        if inverse_trig_of_constant(ref, root) and ode[root].expr.has(sympy.pi) and not ode[root].expr.has(sympy.asin, sympy.acos, sympy.atan):
+            return "C01-inverse-trig-of-constant-rewritten-with-cancellation"
+    if kind == "value" and ode is not None and recheck:
+        try:
+            if without_simplify_counterfactual(ode, recheck):
+                return "C01-simplify-rewrites-through-complex-identity"
+        except Exception:
+            pass
     if kind in ("value", "rhs_raises") and code and recheck and has_int_branch_conditional(text):
         if kind == "value" or "Integers to negative integer powers" in exc:
             try:
